@@ -99,6 +99,43 @@ def showEv : Ev → String
   | .pktEnd ps => " @pe" ++ showPairs ps
   | .item n v => " @it " ++ hex n ++ " " ++ CifArg.showValue v
 
+/-- what the container handle answers inside its start / end callback (harness/x_walk.c `log_queries`); `isBlock`: the model
+    knows which kind of container each handle is -/
+def showQueries (isBlock : Bool) : WCont → String
+  | .mk _ frames loops =>
+    let cf := match frames with
+      | .mk fc _ _ :: _ => "0," ++ hex fc
+      | [] => "-"
+    let il := match loops with
+      | l :: _ => (match l.names with
+          | n :: _ => hex n ++ ",0," ++ hexOpt l.category
+          | [] => "-")
+      | [] => "-"
+    s!" q:{if isBlock then 0 else 6}:{frames.length}:{loops.length}:{cf}:{il}"
+
+mutual
+  /-- the container callbacks of the full traversal, in order, each with the answers of its handle -/
+  def annotCont (depth : Nat) : WCont → List (String × String)
+    | .mk code frames loops =>
+      let q := showQueries (depth == 0) (.mk code frames loops)
+      (showEv (if depth = 0 then .blockStart code else .frameStart code), q)
+        :: (annotConts (depth + 1) frames ++ [(showEv (if depth = 0 then .blockEnd code else .frameEnd code), q)])
+  def annotConts (depth : Nat) : List WCont → List (String × String)
+    | [] => []
+    | c :: cs => annotCont depth c ++ annotConts depth cs
+end
+
+/-- the delivered callbacks are a sublist of the full traversal (C14_visits_sublist) and codes are unique among siblings: every
+    container callback of the log is the next one with the same text in the annotated traversal -/
+def attach : List String → List (String × String) → List String
+  | [], _ => []
+  | e :: es, ann =>
+    if e.startsWith " @bs " || e.startsWith " @be " || e.startsWith " @fs " || e.startsWith " @fe " then
+      match ann.dropWhile (fun a => a.1 != e) with
+      | a :: rest => (e ++ a.2) :: attach es rest
+      | [] => (e ++ " q:?") :: attach es []
+    else e :: attach es ann
+
 def splitAt (sep : String) (xs : List String) : List String × Option (List String) :=
   match xs.span (· != sep) with
   | (a, []) => (a, none)
@@ -122,6 +159,6 @@ def handle : Handler := fun args =>
           | some (c, []) => some (WCif.ofCif c)
           | _ => none
       let (log, rc) := walk (progOf tbl) cif
-      pure (s!"wk rc={rc} n={log.length} log=" ++ String.join (log.map showEv))
+      pure (s!"wk rc={rc} n={log.length} log=" ++ String.join (attach (log.map showEv) (annotConts 0 cif)))
 
 end Driver.Fam.Walk
